@@ -30,8 +30,9 @@ Sections == [kind : {"section"}, spec : {"", "public", "protected", "private"}, 
 IncludeSets == [kind : {"includes"}, system : BOOLEAN,
                 names : { <<NmString>>, <<NmPump, NmVector>>, <<>> }]
 Members == [kind : {"member"}, type : {Int, NsT, CRef, Ptr, Tpl}, name : {"m_x"}]
+\* ck: how the contents are given - a plain TextBlock, a TextBlock with a header, or a Comment object
 Blocks == [kind : {"block"}, ids : { <<>>, <<"A">>, <<"A", "B">>, <<"A", "B", "C">> }, kw : {"struct", "class"},
-           lines : {0, 1, 2}]
+           lines : {0, 1, 2}, ck : {"plain", "header", "comment"}]
 
 VARIABLE d
 Init == d \in (CASE Mode = "function" -> Functions [] Mode = "ctor" -> Ctors [] Mode = "dtor" -> Dtors
@@ -42,11 +43,16 @@ Spec == Init /\ [][Next]_<<d>>
 Laws == d.kind \in {"function", "ctor", "dtor"} => SameEntity(d) /\ NoDefWhenInitialised(d)
 
 BlockContent(n) == CASE n = 0 -> <<>> [] n = 1 -> <<"int", "x", ";">> [] OTHER -> <<"int", "x", ";", "int", "y", ";">>
+\* contents are rendered with str(): a header precedes the lines, a Comment is rendered with its // prefix
+Content(b) == CASE b.ck = "header"  -> (IF b.lines = 0 THEN <<>> ELSE <<"int", "h", ";">> \o BlockContent(b.lines))
+                [] b.ck = "comment" -> (CASE b.lines = 0 -> <<>> [] b.lines = 1 -> <<"//int", "x", ";">>
+                                          [] OTHER -> <<"//int", "x", ";", "//int", "y", ";">>)
+                [] OTHER -> BlockContent(b.lines)
 Emit == PrintT(ToJson(
   IF d.kind = "section" THEN [d |-> d, toks |-> SectionTok(d.spec, BlockContent(d.lines))]
   ELSE IF d.kind = "includes" THEN [d |-> d, toks |-> IncludesTok(d.system, d.names)]
   ELSE IF d.kind = "member" THEN [d |-> d, toks |-> MemberTok(d.type, d.name)]
   ELSE IF d.kind = "block"
-  THEN [d |-> d, ns |-> NamespaceTok(d.ids, BlockContent(d.lines)), st |-> StructTok(d.kw, "S", BlockContent(d.lines))]
+  THEN [d |-> d, ns |-> NamespaceTok(d.ids, Content(d)), st |-> StructTok(d.kw, "S", Content(d))]
   ELSE [d |-> d, valid |-> Valid(d), decl |-> IF Valid(d) THEN Decl(d) ELSE <<>>, def |-> IF Valid(d) THEN Def(d) ELSE <<>>]))
 =============================================================================
